@@ -10,6 +10,8 @@ import (
 	"strconv"
 	"testing"
 	"time"
+
+	"github.com/vicanso/pike/config"
 )
 
 // Search for a concrete failing input of NewDispatcher (C11): for every configured size the shards'
@@ -56,6 +58,30 @@ func TestBoundedHitForPassTTL(t *testing.T) {
 		}
 	}
 	t.Logf("BOUNDED HitForPass ttl: 9 values incl. negative, 0, 1 and large")
+}
+
+// Configured period (C07): the text of config.CacheConfig.HitForPass reaches GetHitForPass as whole seconds.
+func TestBoundedConfiguredPeriod(t *testing.T) {
+	texts := []string{"", "0s", "1s", "30s", "59s", "90s", "1m", "1m30s", "1.5s", "1500ms", "999ms", "2h", "2h45m7s", "100h", "-5s", "x"}
+	for n := 1; n <= 3; n++ {
+		for _, txt := range texts {
+			cfgs := make([]config.CacheConfig, n)
+			for i := range cfgs {
+				cfgs[i] = config.CacheConfig{Name: "c" + strconv.Itoa(i), Size: 100, HitForPass: "7s"}
+			}
+			cfgs[n-1].HitForPass = txt
+			d, _ := time.ParseDuration(txt)
+			want := int(d / time.Second)
+			opts := convertConfigs(cfgs)
+			if len(opts) != n || opts[n-1].HitForPass != want {
+				t.Fatalf("convertConfigs: HitForPass %q at index %d of %d -> %d seconds, want %d", txt, n-1, n, opts[n-1].HitForPass, want)
+			}
+			if got := NewDispatcher(opts[n-1]).GetHitForPass(); got != want {
+				t.Fatalf("NewDispatcher(HitForPass %q).GetHitForPass() = %d, want %d", txt, got, want)
+			}
+		}
+	}
+	t.Logf("BOUNDED configured hit-for-pass period: %d texts x 3 list lengths", len(texts))
 }
 
 func genResp(r *rand.Rand, size int) *HTTPResponse {
